@@ -285,6 +285,20 @@ def rule_e(ctx):
     for fn, pats, what in table:
         b = ctx.qfn(fn)
         ctx.check(may_reach(F, b, pats, 2), 'e', 'drop_performs_' + what.replace(' ', '_'), b, b.where(), '%s reaches %s' % (fn, pats[0]), 'dropping no longer performs the %s' % what)
+    # State::drop tells the endpoint `Drained` unless the protocol state machine itself already reported it:
+    # the only condition that may skip the notification is inner.is_drained()
+    sdp = ctx.qfn('<connection::State as Drop>::drop')
+    dr = [c for c in sdp.calls() if c.is_('EndpointEvent::drained', 'quinn_proto::EndpointEvent::drained')]
+    ctx.floor('e', 'state_drop_drained_sites', len(dr), 1)
+    for c in dr:
+        skipping = []
+        for br in branches(F, sdp):
+            if sdp.dominates(br.bb, c.bb) and any(c.bb not in sdp.reachable_from(t, avoid=[br.bb]) for v, t in br.edges):
+                skipping.append(br)
+        okc = bool(skipping) and all(br.desc[0] == 'call' and br.desc[1] in ('Connection::is_drained', 'quinn_proto::Connection::is_drained') or
+                                     (peel_not(br.desc)[0][0] == 'call' and peel_not(br.desc)[0][1].endswith('Connection::is_drained')) for br in skipping)
+        ctx.check(okc, 'e', 'state_drop_notifies_unless_drained', sdp, c.where(), 'skipped only when inner.is_drained()',
+                  'State::drop skips the endpoint notification under another condition (%s): a connection dropped while closed-but-not-drained leaks its endpoint entry, wait_idle() never returns' % [D.render(br.desc)[:60] for br in skipping])
     for fn, fld in (('<send_stream::SendStream as Drop>::drop', 'blocked_writers'), ('<recv_stream::RecvStream as Drop>::drop', 'blocked_readers'), ('recv_stream::RecvStream::stop', 'blocked_readers')):
         b = ctx.qfn(fn)
         ok = any(c.is_('HashMap::remove') and D.has_field(arg_desc(F, c, 0), fld) for c in b.calls())
